@@ -527,7 +527,9 @@ class Parser:
     def parse_newline_option(self, buf, skip_space):
         if skip_space:
             # we do not want to remove a line break for \\ without [...]
-            tok = buf.look_ahead()
+            # (the end of a language scope also ends the search, compare
+            # skip_space() in expand_macro())
+            tok = buf.look_ahead(stop_lang=True)
             if self.markup_txt(tok) == '[':
                 buf.skip_space()
         tok = buf.cur()
